@@ -195,8 +195,12 @@ Arguments Build_source {P}. Arguments s_addr {P}. Arguments s_res {P}.
    [toy_combine] mirrors combineProfiles on such profiles: CompatibilizeSampleTypes fails when the
    sample types have no common name; a single profile is returned as is (fetch.go:256); otherwise
    profile.Merge: zero-valued samples are skipped, equal keys are summed (int64 wrap-around) in order
-   of first appearance, and samples whose sum is zero are dropped (merge.go:81-87). *)
-Record tprof := { tp_type : string; tp_samples : list (string * Z) }.
+   of first appearance, and samples whose sum is zero are dropped (merge.go:81-87).
+   [tp_comments] stands for the header fields that record WHICH profiles went in and in WHAT ORDER
+   (Profile.Comments: combineHeaders appends the comments of the sources in order, merge.go:493; the
+   harness gives every source one distinct comment, so the de-duplication there never fires and is
+   not modelled). *)
+Record tprof := { tp_type : string; tp_comments : list string; tp_samples : list (string * Z) }.
 
 Fixpoint tp_add (acc : list (string * Z)) (k : string) (v : Z) : list (string * Z) :=
   match acc with
@@ -220,7 +224,8 @@ Definition toy_combine (ps : list tprof) : option tprof :=
   if toy_compat ps then
     match ps with
     | [p] => Some p
-    | p :: _ => Some {| tp_type := tp_type p; tp_samples := toy_merge_samples ps |}
+    | p :: _ => Some {| tp_type := tp_type p; tp_comments := List.concat (map tp_comments ps);
+                        tp_samples := toy_merge_samples ps |}
     | [] => None
     end
   else None.
